@@ -11,7 +11,7 @@ PROPERTY = "C11"
 SHARDS = {"quick": 6, "thorough": 16}
 RULE = (
     "cases: request histories on one grid - every ordered pair of tree requests from {ball, kd} x {nodes, face centers, edge "
-    "centers} x {spherical, cartesian} x {reconstruct False, True} (24 x 24 pairs: a seeded third in quick, all in thorough) "
+    "centers} x {spherical, cartesian} x {reconstruct False, True} x the metrics each tree type admits (haversine; euclidean/minkowski, chebyshev, manhattan): 60 requests, 60 x 60 ordered pairs (a seeded seventh in quick, all in thorough) "
     "plus random histories of length 1..4; after every request the returned tree's attributes are compared with the request "
     "and 8 queries are run against it: k-nearest (k in {1, 2, n/2, n}, with and without distances, single and batched points, "
     "degrees and radians) and radius queries (r = 0, small, large; indices, distances, counts). Query points: random, exactly "
@@ -30,26 +30,26 @@ MIN_EVAL = {"quick": {"tree_reflects_request": 500, "knn": 1500, "radius": 900},
             "thorough": {"tree_reflects_request": 6000, "knn": 18000, "radius": 10000}}
 
 KINDS = ["nodes", "face centers", "edge centers"]
-REQS = [(t, k, s, r) for t in ("ball", "kd") for k in KINDS for s in ("spherical", "cartesian") for r in (False, True)]
+LIB_METRICS = {("ball", "spherical"): ["haversine"], ("ball", "cartesian"): ["euclidean", "chebyshev", "manhattan"],
+               ("kd", "spherical"): ["minkowski", "chebyshev", "manhattan"], ("kd", "cartesian"): ["minkowski", "chebyshev", "manhattan"]}
+REQS = [(t, k, s, r, lm) for t in ("ball", "kd") for k in KINDS for s in ("spherical", "cartesian") for r in (False, True) for lm in LIB_METRICS[(t, s)]]
 
 
-def metric_of(tree_type, system):
+def metric_of(tree_type, system, lib_metric_name):
+    """oracle metric for a requested (tree, system, library metric name)"""
+    fam = {"euclidean": "", "minkowski": "", "haversine": "", "chebyshev": "_chebyshev", "manhattan": "_manhattan"}[lib_metric_name]
     if system == "cartesian":
-        return "chord"
-    return "haversine" if tree_type == "ball" else "planar"
-
-
-def lib_metric(tree_type, system):
+        return "chord" if not fam else "xyz" + fam
     if tree_type == "ball":
-        return "haversine" if system == "spherical" else "euclidean"
-    return "minkowski"
+        return "haversine"
+    return "planar" + fam
 
 
 def cases(tier, seed):
     rng = np.random.default_rng([seed, 1111])
     pairs = list(itertools.product(range(len(REQS)), repeat=2))
     if tier == "quick":
-        idx = rng.permutation(len(pairs))[: len(pairs) // 3]
+        idx = rng.permutation(len(pairs))[: len(pairs) // 7]
         pairs = [pairs[i] for i in sorted(idx)]
     for a, b in pairs:
         yield {"mesh": gen.random_mesh(rng, 40), "history": [a, b], "qseed": int(rng.integers(0, 10**6))}
@@ -113,29 +113,30 @@ def run_case(ctx, case):
     twin = ux.grid_from_mesh(m)
     rng = np.random.default_rng(case["qseed"])
     hist = [REQS[i] for i in case["history"]]
-    changed = any(hist[i][:3] != hist[i - 1][:3] for i in range(1, len(hist)))
+    changed = any((hist[i][:3], hist[i][4]) != (hist[i - 1][:3], hist[i - 1][4]) for i in range(1, len(hist)))
     special_any = False
     done = []
-    for step, (ttype, kind, system, recon) in enumerate(hist):
-        metric = metric_of(ttype, system)
+    for step, (ttype, kind, system, recon, lmetric) in enumerate(hist):
+        metric = metric_of(ttype, system, lmetric)
         prev = done[-1] if done else None
-        sig0 = {"tree": ttype, "kind": kind, "system": system, "reconstruct": recon, "step": min(step, 2),
+        sig0 = {"tree": ttype, "kind": kind, "system": system, "reconstruct": recon, "step": min(step, 2), "lib_metric": lmetric,
+                "prev_same_type_metric": None if prev is None else next((p[3] for p in reversed(done) if p[0] == ttype), None),
                 "prev_same_type_system": None if prev is None else next((p[2] for p in reversed(done) if p[0] == ttype), None),
                 "prev_same_type_kind": None if prev is None else next((p[1] for p in reversed(done) if p[0] == ttype), None)}
         try:
             if ttype == "ball":
-                tree = g.get_ball_tree(coordinates=kind, coordinate_system=system, distance_metric=lib_metric(ttype, system), reconstruct=recon)
+                tree = g.get_ball_tree(coordinates=kind, coordinate_system=system, distance_metric=lmetric, reconstruct=recon)
             else:
-                tree = g.get_kd_tree(coordinates=kind, coordinate_system=system, distance_metric=lib_metric(ttype, system), reconstruct=recon)
+                tree = g.get_kd_tree(coordinates=kind, coordinate_system=system, distance_metric=lmetric, reconstruct=recon)
         except Exception as e:
             ctx.check("no_exception", False, dict(sig0, stage="get_tree", exc=core.exc_sig(e)), {"exc": repr(e), "history": hist[: step + 1], "mesh": case["mesh"]})
             return
-        done.append((ttype, kind, system))
+        done.append((ttype, kind, system, lmetric))
         ok = (getattr(tree, "coordinates", None) == kind and getattr(tree, "coordinate_system", None) == system
-              and getattr(tree, "distance_metric", None) == lib_metric(ttype, system))
+              and getattr(tree, "distance_metric", None) == lmetric)
         ctx.check("tree_reflects_request", ok, sig0,
                   {"got": [getattr(tree, "coordinates", None), getattr(tree, "coordinate_system", None), getattr(tree, "distance_metric", None)],
-                   "want": [kind, system, lib_metric(ttype, system)], "history": hist[: step + 1], "mesh": case["mesh"]})
+                   "want": [kind, system, lmetric], "history": hist[: step + 1], "mesh": case["mesh"]})
         P, LL = elements(m, g, twin, kind)
         ne = len(P)
         scale_deg = 180.0 / math.pi
@@ -147,7 +148,7 @@ def run_case(ctx, case):
             in_rad = bool(rng.random() < 0.4)
             if system == "cartesian":
                 coords = Q if nq > 1 else (Q[0] if rng.random() < 0.5 else Q)
-                D = nn.distances("chord", P, LL, q_xyz=Q)
+                D = nn.distances(metric, P, LL, q_xyz=Q)
                 scale = 1.0
             elif ttype == "ball":
                 c = np.stack([qlon, qlat], axis=1)
@@ -157,7 +158,7 @@ def run_case(ctx, case):
             else:
                 c = np.stack([qlat, qlon], axis=1)  # k-d trees on spherical coordinates take (lat, lon)
                 coords = np.deg2rad(c) if in_rad else c
-                D = nn.distances("planar", P, LL, q_lonlat_deg=np.stack([qlon, qlat], axis=1))
+                D = nn.distances(metric, P, LL, q_lonlat_deg=np.stack([qlon, qlat], axis=1))
                 scale = 1.0 if in_rad else scale_deg
             if system != "cartesian" and nq == 1 and rng.random() < 0.5:
                 coords = coords[0]
